@@ -294,6 +294,11 @@ func build(p Prog, in ...bigslice.Slice) bigslice.Slice {
 			x = in[0]
 		case 3: // a reused result behind Prefixed
 			x = bigslice.Prefixed(in[0], 1)
+		case 4: // an ordinary shared sub-slice at the end of a long pipeline (40 pipelined operators: a long task name)
+			x = constSrc(p.N)
+			for i := 0; i < 40; i++ {
+				x = bigslice.Map(x, func(k, v int) (int, int) { return k, v })
+			}
 		}
 		consumer := func(code int) bigslice.Slice {
 			switch code {
@@ -460,11 +465,11 @@ func enumerate(thorough bool) []Case {
 	consumerLists = append(consumerLists, []int{0, 1, 2, 3}, []int{3, 2, 1, 0}, []int{1, 0, 3, 2}, []int{0, 1, 5}, []int{1, 5, 0}, []int{1, 2, 0})
 	for _, cl := range consumerLists {
 		for n := 1; n <= 3; n++ {
-			for shape := 0; shape <= 3; shape++ {
+			for shape := 0; shape <= 4; shape++ {
 				for rev := 0; rev <= 1; rev++ {
 					p := Prog{Kind: "dshuf", Shape: shape, N: n, M: rev, Ops: cl}
-					fam := fmt.Sprintf("direct+shuffle/x=%s", []string{"shared", "materialized", "result", "prefixed-result"}[shape])
-					if shape <= 1 {
+					fam := fmt.Sprintf("direct+shuffle/x=%s", []string{"shared", "materialized", "result", "prefixed-result", "shared-after-40-pipelined-operators"}[shape])
+					if shape <= 1 || shape == 4 {
 						both(Case{Family: fam, Steps: []Step{{0, p, nil}}})
 						continue
 					}
